@@ -73,10 +73,7 @@ def Kind.exec : Kind → List CT → Option CT
   | .gatherV idxs, [.vector vs] => (cgather vs idxs).map CT.vector
   | .unsqueeze0, [.scalar v] => some (.vector [v])
   | .squeeze0, [.vector [v]] => some (.scalar v)
-  | .bshape, [a, b] =>
-    if (a.dims.all fun x => decide (1 ≤ x)) && (b.dims.all fun x => decide (1 ≤ x)) then
-      (cbroadcast a.dims b.dims).map CT.shaped
-    else none
+  | .bshape, [a, b] => (cbroadcast a.dims b.dims).map CT.shaped
   | .other _ ex, cs => ex cs
   | _, _ => none
 
@@ -396,15 +393,11 @@ theorem c10_kind_sound (σ : Env) (k : Kind) (hk : k.proved = true)
                 cases t with
                 | shape out =>
                   simp only [hbs, Option.some.injEq] at hi; subst hi
-                  by_cases hp : ((ca.dims.all fun x => decide (1 ≤ x)) && (cb'.dims.all fun x => decide (1 ≤ x))) = true
-                  · simp only [hp, if_true] at he
-                    cases hz : cbroadcast ca.dims cb'.dims with
-                    | none => simp [hz] at he
-                    | some zs =>
-                      simp only [hz, Option.map_some] at he; cases he
-                      simp only [Bool.and_eq_true, List.all_eq_true, decide_eq_true_eq] at hp
-                      exact c10_binaryShape_sound σ a b ca cb' ad bd out zs ha hb had hbd hp.1 hp.2 hbs hz
-                  · simp [hp] at he
+                  cases hz : cbroadcast ca.dims cb'.dims with
+                  | none => simp [hz] at he
+                  | some zs =>
+                    simp only [hz, Option.map_some] at he; cases he
+                    exact c10_binaryShape_sound σ a b ca cb' ad bd out zs ha hb had hbd hbs hz
                 | scalar e => simp [hbs] at hi
                 | vector es => simp [hbs] at hi
                 | unknown => simp [hbs] at hi
